@@ -116,6 +116,13 @@ class Rec(CallbackBase):
             self.R.hash_at.append((len(self.R.hist) - 1, param_hash(nn_state)))
         if k == "EE":
             self.R.cur_ep = ep
+        side = getattr(self.R, "interleave", None)
+        if side is not None and self.idx == min(r.idx for r in self.R.recs):
+            self.R.in_side = True       # (what the other model's training does is not an event of THIS run)
+            try:
+                side(k, ep, b)          # the user's callback does something else with the library in between
+            finally:
+                self.R.in_side = False
         if injected:
             nn_state.stop_training = True
         if ("RZ", k, ep, b, self.idx) in self.plan:
@@ -305,6 +312,8 @@ def observe(nn_state, R, numeric=False, force=None):
 
     def v2g(vec, parameters):
         ps = list(parameters)
+        if getattr(R, "in_side", False):
+            return orig_v2g(vec, iter(ps))
         which = 0
         for i, net in enumerate(nn_state.networks):
             first = next(iter(getattr(nn_state, net).parameters()))
@@ -517,7 +526,8 @@ def _callbacks_arg(cbs):
 
 def real_run(cfg, plan=(), seed=0, k=1, lr=0.05, numeric_hook=None, time_flag=False,
              nn_state=None, container="tensor", opt_base=torch.optim.SGD, tmpdir=None,
-             sched_args=None, force=None, prev=None, metric_names=("m",), opt_args=None, sched_base=None):
+             sched_args=None, force=None, prev=None, metric_names=("m",), opt_args=None, sched_base=None,
+             interleave=None):
     """Run the real fit for configuration `cfg` (a dict shaped like Train.tla's cfg
     records; `vals`/`vars` indexed by epoch).  plan = set of (k, ep, b, cb) where
     recording callback cb requests a stop.  Returns the observed projection."""
@@ -541,6 +551,7 @@ def real_run(cfg, plan=(), seed=0, k=1, lr=0.05, numeric_hook=None, time_flag=Fa
         R.recs = []
         R.lam_parity = seed % 2
     R.start_ep = cfg["startEp"]
+    R.interleave = interleave
     R.numeric_hook = numeric_hook
     data_rows = [row_bits(c, nv) for c in cfg["data"]]
     if container == "tensor":
